@@ -1,0 +1,19 @@
+//go:build verif
+
+// Contracts (machine-checked by /verif/engine, see /verif/DESIGN.md). Comment-only file.
+package floodgate
+
+// ---- C40: the Java UUID of a Bedrock player is a function of the XUID only, RFC 4122 version 5 / variant 10 ----
+// uuid = first 16 bytes of SHA-1("FloodgateXUID:" ++ decimal(xuid)) with byte6 = (b&0x0f)|0x50, byte8 = (b&0x3f)|0x80.
+//@ func (*BedrockData).JavaUuid
+//@   props C40
+//@   at-call sha1.New as h
+//@   at-call Write#1 as w1: assert arg0 == res(h) && streq(bytes(arg1), "FloodgateXUID:")
+//@   at-call FormatInt as dec: assert arg0 == d.Xuid && arg1 == 10
+//@   at-call Write#2 as w2: assert arg0 == res(h) && called(w1) && streq(bytes(arg1), res(dec))
+//@   at-call Sum as sum: assert arg0 == res(h) && called(w2) && isnil(arg1)
+//@   at-call FromBytes as fb: assert [sixteen-of-digest] called(sum) && ref(arg0) == ref(res(sum)) && len(arg0) == 16
+//@   at-call FromBytes: assert [version5] arg0[6] == (at(sum, res(sum)[6]) & 0x0f) | 0x50
+//@   at-call FromBytes: assert [variant] arg0[8] == (at(sum, res(sum)[8]) & 0x3f) | 0x80
+//@   at-call FromBytes: assert [other-bytes-digest] forall i int :: 0 <= i && i < 16 && i != 6 && i != 8 ==> arg0[i] == at(sum, res(sum)[i])
+//@   ensures [returns-that-uuid] called(fb) ==> result.0 == res(fb, 0) && result.1 == res(fb, 1)
